@@ -341,6 +341,7 @@ func driverMain(args []string) int {
 	// 3. verdicts
 	nv, nknown := 0, 0
 	replayDir := filepath.Join(root, "replay", id)
+	_ = os.RemoveAll(replayDir)
 	seenKey := map[string]int{}
 	var vioLines []string
 	for i := range total.Violations {
